@@ -87,6 +87,44 @@ Proof.
   - split; [right; apply agree_outside_refl|]. rewrite nth_zero_new by exact Hj. rewrite Hb. reflexivity.
 Qed.
 
+(* What fix can actually do in strategy 2 (check.c repair): it zeroes exactly the CHG blocks whose recorded past hash is ZERO.
+   The old parity encodes zero_new (every block that is not a synced BLK block zeroed).  The two coincide when the additions are
+   recorded as CHG/ZERO -- NOT after the pre-hash phase of `sync -h`, which turns them into REP blocks with the hash of the new
+   data (finding F-C07-prehash-loses-empty-marker): hypothesis `no_prehash_stripe`. *)
+Definition can_zero_slot (s : slot) : bool :=
+  match s with SFile _ _ b => bstate_eqb (fb_state b) SChg && hval_eqb (fb_hash b) HZero | _ => false end.
+Definition zero_chg (slots : list slot) (d : list bid) : list bid :=
+  map (fun j => if can_zero_slot (nth j slots SEmpty) then 0%N else nth j d 0%N) (seq 0 (length d)).
+Definition no_prehash_stripe (slots : list slot) (d : list bid) : Prop :=
+  forall j, j < length d -> adds_only_slot (nth j slots SEmpty) (nth j d 0%N).
+
+Lemma zero_chg_eq slots d : no_prehash_stripe slots d -> zero_chg slots d = zero_new slots d.
+Proof.
+  intro H. unfold zero_chg, zero_new. apply map_ext_in. intros j Hj. apply in_seq in Hj. specialize (H j ltac:(lia)).
+  destruct (nth j slots SEmpty) as [|f i b|h]; simpl in *.
+  - exact H.
+  - destruct H as [E|[E1 E2]]; rewrite ?E, ?E1, ?E2; reflexivity.
+  - destruct H.
+Qed.
+
+Theorem adds_only_recoverable_noprehash (slots : list slot) (d v : list bid) (j0 : nat) :
+  j0 < length d -> is_blk_slot (nth j0 slots SEmpty) = true ->
+  no_prehash_stripe slots d ->
+  (v = d \/ v = zero_new slots d) ->
+  (agree_outside [j0] v d = true \/ agree_outside [j0] v (zero_chg slots d) = true) /\ nth j0 v 0%N = nth j0 d 0%N.
+Proof.
+  intros Hj Hb Hn Hv. rewrite (zero_chg_eq slots d Hn). apply adds_only_recoverable_stripe; assumption.
+Qed.
+
+(* with the pre-hash phase the statement is false: d1 holds a synced block (5), d2 a just-added block recorded REP (data 9), the
+   level still holds the old parity (5, 0, 0): neither strategy of fix applies *)
+Example adds_only_prehash_refuted :
+  let slots := [SFile (mkCF 1 1024 0 0 1 false []) 0 (mkFB SBlk 0 (HReal 5)); SFile (mkCF 2 1024 0 0 2 false []) 0 (mkFB SRep 0 (HReal 9)); SEmpty] in
+  let d := [5; 9; 0]%N in
+  zero_new slots d = [5; 0; 0]%N /\ zero_chg slots d = d /\
+  agree_outside [0] (zero_new slots d) d = false /\ agree_outside [0] (zero_new slots d) (zero_chg slots d) = false.
+Proof. vm_compute. repeat split. Qed.
+
 (* the old parity of such a stripe IS zero_new: it fits enc_ok of C06 for the content before the additions *)
 Lemma zero_new_at_new slots d j : j < length d -> is_blk_slot (nth j slots SEmpty) = false -> nth j (zero_new slots d) 0%N = 0%N.
 Proof. intros H E. rewrite nth_zero_new by exact H. rewrite E. reflexivity. Qed.
